@@ -197,10 +197,15 @@ func bezierRange(p0, p1, p2, p3 float64) (lo, hi float64) {
 			n = 1
 		}
 	} else if d := b*b - 4*a*c; d >= 0 {
-		sq := math.Sqrt(d)
-		roots[0] = (-b + sq) / (2 * a)
-		roots[1] = (-b - sq) / (2 * a)
-		n = 2
+		// The numerically stable form of the quadratic formula: a is tiny for
+		// quadratic curves which were converted to cubic ones.
+		q := -0.5 * (b + math.Copysign(math.Sqrt(d), b))
+		roots[0] = q / a
+		n = 1
+		if q != 0 {
+			roots[1] = c / q
+			n = 2
+		}
 	}
 	for _, t := range roots[:n] {
 		if t <= 0 || t >= 1 {
